@@ -83,6 +83,12 @@ def refresh(updated_object):
     if REFRESH["target"] is not updated_object:
         return
     REFRESH["target"] = None
+    if REFRESH.get("state") is not None:
+        # the state found in the data source has other children: some are gone, new ones (with sources of their
+        # own) have appeared, a kept one may have got / lost its source
+        updated_object.update_from(rt.build(copy_tree(REFRESH["state"])))
+        REFRESH["done"] = True
+        return
     sub = copy_tree(rt.clean(REFRESH["node"]))
     sub["k"] = REFRESH["name"]
     updated_object.update_from(rt.build(sub))
@@ -325,9 +331,12 @@ def run_ops(tree, ops):
             todo = [(("update", p, ra), list(log_a), res["a"]), (("update", q, rb), list(LOG), res["b"])]
         else:
             x = by_pos[tuple(op[1])]["_o"]
-            sop = ("update", tuple(op[1]), False) if op[0] == "refresh" else op
+            sop = ("update", tuple(op[1]), False) if op[0] == "refresh" else \
+                ("update", tuple(op[1]), bool(op[2])) if op[0] == "refreshc" else op
             if op[0] == "refresh":
-                REFRESH.update(target=x, node=by_pos[tuple(op[1])], name=op[2], done=False)
+                REFRESH.update(target=x, node=by_pos[tuple(op[1])], name=op[2], done=False, state=None)
+            elif op[0] == "refreshc":
+                REFRESH.update(target=x, node=by_pos[tuple(op[1])], name=None, done=False, state=rt.clean(op[3]))
             del LOG[:]
             err = None
             try:
@@ -340,6 +349,19 @@ def run_ops(tree, ops):
                 err = e
             REFRESH["target"] = None
             todo = [(sop, list(LOG), err)]
+            if op[0] == "refreshc" and REFRESH["done"]:
+                # the backend consulted for the node itself has written the new state (other children) into it: the
+                # descendants of the node are those it has from then on, the call is judged (and compared with the
+                # model) on the tree as it is after the refresh - a new segment that begins with this very call
+                n = by_pos[tuple(op[1])]
+                new = copy_tree(rt.clean(op[3]))
+                for key in [k for k in n if k != "_o"]:
+                    del n[key]
+                n.update(new)
+                attach_live(n, x)
+                reindex()
+                segments.append(seg)
+                seg = {"tree": rt.clean(tree), "regs": list(regs_so_far), "ops": [], "obs": []}
         for sop, calls, err in todo:
             judge(sop, calls, err)
         if op[0] == "refresh" and REFRESH["done"]:
@@ -496,6 +518,35 @@ def gen_history(rng, tree, count, late):
             rng.shuffle(below)
             for q in below[:3]:
                 ops += rng.sample([("commit", q), ("update", q, False), ("update", q, True)], rng.randint(1, 2))
+    if rng.random() < 0.35:
+        # the data source delivers a state of a node with other children (some gone, new ones with sources of their
+        # own): the backend consulted for the node writes it with update_from() while update() is under way
+        for _ in range(rng.randint(1, 2)):
+            cand = []
+            for p, n, par in rt.walk(cur):
+                if n["c"] not in ("Submodel", "SubmodelElementCollection", "Entity"):
+                    continue
+                if any(x["c"] in ("SubmodelElementList", "Operation") for _, x, _ in rt.walk(n)):
+                    continue
+                if any(x["c"] in ("SubmodelElementList", "Operation") for x in chain_of(cur, p)[:-1]):
+                    continue
+                serving = [by["src"] for by in chain_of(cur, p) if by["src"]]
+                if serving and scheme_py(serving[-1]) in SCHEMES:
+                    cand.append((p, n, par))
+            if not cand:
+                break
+            p, n, par = rng.choice(cand)
+            new, ngone, nadded = gen_refreshed(rng, n)
+            rec = rng.random() < .75
+            ops.append(("refreshc", p, rec, new))
+            for key in list(n):
+                del n[key]
+            n.update(copy_tree(new))
+            count(f"refresh-children(recursive={rec})=" + ("gone+" if ngone else "") + ("new" if nadded else ""))
+            below = [q for q, _, _ in rt.walk(cur) if q[:len(p)] == p]
+            rng.shuffle(below)
+            for q in below[:3]:
+                ops += rng.sample([("commit", q), ("update", q, False), ("update", q, True)], rng.randint(1, 2))
     if rng.random() < 0.6:
         for _ in range(rng.randint(1, 3)):
             m = gen_edit(rng, cur)
@@ -512,6 +563,43 @@ def gen_history(rng, tree, count, late):
                 ops.append(("clock", rng.choice(CLOCK_STEPS)))
                 ops += [("update", p, False) for p in near[:2]]
     return ops
+
+
+def attach_live(n, o):
+    """remember the live objects in the abstract nodes below n (o = the live object of n), found through the public
+    accessors: get_referable by id_short, the items of a list by position"""
+    n["_o"] = o
+    items = list(o.value) if n["c"] == "SubmodelElementList" else None
+    for i, c in enumerate(n["ch"]):
+        attach_live(c, items[i] if items is not None else o.get_referable(c["k"]))
+
+
+def gen_refreshed(rng, n):
+    """the state of node n as the data source has it now: same class, id_short, source and attributes; some children
+    are gone, the kept ones come first in their old order (one of them may have got or lost its source), new
+    children - leaves or small containers, most of them with a source of their own - follow"""
+    new = copy_tree(rt.clean(n))
+    ch = new["ch"]
+    gone = [c for c in ch if rng.random() < .4]
+    sourced_ch = [c for c in ch if c["src"]]
+    if sourced_ch and not any(c["src"] for c in gone) and rng.random() < .6:
+        gone.append(rng.choice(sourced_ch))
+    kept = [c for c in ch if not any(c is g for g in gone)]
+    if kept and rng.random() < .3:
+        c = rng.choice(kept)
+        c["src"] = "" if c["src"] else rng.choice(GOOD)
+    free = [k for k in rt.ID_SHORTS + ["sensor", "n9"] if k not in [c["k"] for c in ch]]
+    rng.shuffle(free)
+    added = []
+    for k in free[:rng.randint(0 if gone else 1, 2)]:
+        it = rt.gen_elem(rng, rng.choice([1, 1, 2]), k)
+        if any(x["c"] in ("SubmodelElementList", "Operation") for _, x, _ in rt.walk(it)):
+            it = rt.gen_elem(rng, 1, k)
+        for _, x, _ in rt.walk(it):
+            x["src"] = rng.choice(GOOD) if rng.random() < .6 else ""
+        added.append(it)
+    new["ch"] = kept + added
+    return new, len(gone), len(added)
 
 
 def renamed(parent, i, name):
@@ -539,6 +627,8 @@ def flat_ops(ops):
             res.append(o)
         elif o[0] == "refresh":
             res.append(("update", o[1], False))
+        elif o[0] == "refreshc":
+            res.append(("update", o[1], bool(o[2])))
         elif o[0] == "pupdate":
             res += [("update", o[1], o[2]), ("update", o[3], o[4])]
     return res
@@ -769,7 +859,12 @@ def finish(chk):
                            "each caller judged and compared with the model as a call of its own); in ~35% 1-2 refreshes: the "
                            "recording backend writes a renamed state of the updated node (its subtree rebuilt through the "
                            "constructors under a new id_short) with update_from(), then calls on the node and below it, the "
-                           "model evaluated on the renamed tree (re-keyed child = last of its NamespaceSet); schemes: one letter, letter+digits/+/-/., upper case, 127 characters; non-trivial = >= 3 nodes and >= 1 source")
+                           "model evaluated on the renamed tree (re-keyed child = last of its NamespaceSet); in ~35% 1-2 refreshes "
+                           "that change the children: during update(recursive=True/False) of a Submodel / collection / Entity "
+                           "the backend consulted for the node writes a state with other children into it (update_from(): "
+                           "sourced children gone, new sourced children and small subtrees, a kept child gaining or losing its "
+                           "source); the call is judged by the oracle and compared with the model on the tree as it is after "
+                           "that refresh (own source + the sourced descendants the node has then), then calls below it; schemes: one letter, letter+digits/+/-/., upper case, 127 characters; non-trivial = >= 3 nodes and >= 1 source")
 
 
 def replay(path):
